@@ -73,7 +73,16 @@ def app(environ, start_response):
         if q.get("who"):
             hdrs.append(("X-Worker", str(os.getpid())))
         text = {"200": "200 OK", "201": "201 Created", "204": "204 No Content", "304": "304 Not Modified", "404": "404 Not Found"}[status]
-        write = start_response(text, hdrs)
+        if q.get("excinfo"):
+            # the WSGI error pattern: a first start_response is replaced, before any output, by a second one with exc_info
+            start_response("500 Internal Server Error", [("Content-Type", "text/plain"), ("Content-Length", "3")])
+            try:
+                raise RuntimeError("replace")
+            except RuntimeError:
+                import sys
+                write = start_response(text, hdrs, sys.exc_info())
+        else:
+            write = start_response(text, hdrs)
         if prod == "write":
             for c in chunks:
                 write(c)
